@@ -476,7 +476,25 @@ func canonIds(bc string) string {
 	})
 }
 
+// json: compact and formatted JSON of the results, per text, next to the in-memory matches
+func opJson(c Case, r Result) {
+	src := bytesArg(c, "src")
+	cp := compileSrc(src, r)
+	if cp == nil {
+		return
+	}
+	outs := [][]string{}
+	for _, t := range c["texts_hex"].([]any) {
+		b, _ := hex.DecodeString(t.(string))
+		ms := engine.Run(cp.bc, string(b))
+		outs = append(outs, []string{hex.EncodeToString([]byte(ms.Json())), hex.EncodeToString([]byte(ms.FormattedJson())), matchesSexp(ms)})
+		r["json"] = outs
+	}
+	r["json"] = outs
+}
+
 var ops = map[string]func(Case, Result){
+	"json":    opJson,
 	"conc":    opConc,
 	"glob":    opGlob,
 	"reader":  opReader,
